@@ -1,6 +1,66 @@
 import SigpyVerif.Model.Py
 import SigpyVerif.Model.Proto
+import SigpyVerif.Model.C07
 namespace SigpyVerif.Drv.C07
+open SigpyVerif SigpyVerif.Proto SigpyVerif.C07
+
+/-- `s:<rat>` scalar, `l:<rat list>` per-axis -/
+def parseBc (s : String) : Option Bc :=
+  if s.startsWith "s:" then (parseRat? (s.drop 2).toString).map Bc.scalar
+  else if s.startsWith "l:" then (parseRatList? (s.drop 2).toString).map Bc.perAxis
+  else none
+
+def fmtIdx (l : List Int) : String := ".".intercalate (l.map fmtInt)
+
+def reply (shape : List Int) (d : Array (Rat × Rat)) : String :=
+  s!"ok {fmtIntList shape} | {fmtCRatList d.toList}"
+
 /-- protocol handler for property C07 (tokens after the property id). -/
-def handle (_toks : List String) : String := "err bad-op"
+def handle (toks : List String) : String :=
+  let getL (k : String) := (kv toks k).bind parseIntList?
+  let getR (k : String) := (kv toks k).bind parseRatList?
+  let getB (k : String) := (kv toks k).bind parseBc
+  let getX := ((kv toks "x").bind parseCRatList?).map List.toArray
+  match toks.head? with
+  | some "kernel" =>
+    match (kv toks "x").bind parseRat?, (kv toks "order").bind parseRat? with
+    | some x, some o => s!"ok {fmtRat (Gen.splineKernel x o)}"
+    | _, _ => "err bad-op"
+  | some "interp" =>
+    match getL "gsh", getL "csh", getR "coord", getB "width", getB "param", getX with
+    | some gsh, some csh, some coord, some w, some p, some x =>
+      if x.size ≠ (shapeProd gsh).toNat then "err size" else
+      match interpolate Gen.splineKernel gsh csh coord w p x with
+      | some (o, y) => reply o y
+      | none => "err index"
+    | _, _, _, _, _, _ => "err bad-op"
+  | some "grid" =>
+    match getL "gsh", getL "csh", getR "coord", getB "width", getB "param", getX with
+    | some gsh, some csh, some coord, some w, some p, some x =>
+      match gridding Gen.splineKernel gsh csh coord w p x with
+      | some (o, y) => reply o y
+      | none => "err index"
+    | _, _, _, _, _, _ => "err bad-op"
+  | some "entries" =>
+    match (kv toks "op"), getL "gsh", getL "csh", getR "coord", getB "width", getB "param" with
+    | some op, some gsh, some csh, some coord, some w, some p =>
+      if op ≠ "interp" ∧ op ≠ "grid" then "err bad-op" else
+      match entries (op == "grid") Gen.splineKernel gsh csh coord w p with
+      | some (E, acc) =>
+        let body := " ".intercalate (E.map fun (d, s, wt) => s!"{fmtIdx d}:{fmtIdx s}:{fmtRat wt}")
+        s!"ok acc={fmtBool acc} | {body}"
+      | none => "err index"
+    | _, _, _, _, _, _ => "err bad-op"
+  | some "tagged" =>
+    match (kv toks "op"), getL "gsh", getL "csh", getR "coord", getB "width" with
+    | some op, some gsh, some csh, some coord, some w =>
+      if op ≠ "interp" ∧ op ≠ "grid" then "err bad-op" else
+      match entriesTagged (op == "grid") gsh csh coord w with
+      | some E =>
+        let body := " ".intercalate (E.map fun (d, s, us) =>
+          s!"{fmtIdx d}:{fmtIdx s}:{";".intercalate (us.map fmtRat)}")
+        s!"ok | {body}"
+      | none => "err index"
+    | _, _, _, _, _ => "err bad-op"
+  | _ => "err bad-op"
 end SigpyVerif.Drv.C07
